@@ -170,6 +170,17 @@ func (ex *Executor) opaqueFuncCall(st *State, c *callCtx) []callResult {
 	} else if res != nil {
 		rs = []Value{res}
 	}
+	if len(rs) == 2 {
+		// Go convention assumed for external function values returning
+		// (*T, error): a nil error comes with a non-nil pointer
+		if _, isPtr := c.Sig.Results().At(0).Type().Underlying().(*types.Pointer); isPtr {
+			if p, ok := rs[0].(*Term); ok {
+				if e, ok := rs[1].(*Term); ok && e.S == SInt {
+					st.Fact(Implies(isNilT(e), nonNil(p)))
+				}
+			}
+		}
+	}
 	st.Emit("CallFuncValue", c.Args, rs, ex.pos(c.Pos))
 	return one(st, res)
 }
